@@ -25,7 +25,7 @@ run() { # id prop patch expected
   echo "$id $prop exit=$rc expected=$exp $verdict  $cls"
 }
 for d in "$ROOT"/seeded/${PFX}*/; do
-  id=$(basename "$d"); [ "$id" = "_correct_refactors" ] && continue
+  id=$(basename "$d"); case "$id" in _*) continue;; esac
   prop=${id%%-*}
   run "$id" "$prop" "$d/patch.diff" 1
 done
